@@ -69,6 +69,17 @@ def units(tier):
                     if op == "gdup" and lines[li][sp[j][1]:sp[j][2]] != "(":
                         continue
                     us.append(dict(h="tokmut", prog=p, line=li, j=j, op=op, std=std, ic=True, cost=1))
+    # the repository's own test texts (valid and invalid programs, reader layouts), one character symbolic
+    from sse import harvest
+    k = 0
+    for t in harvest.test_texts():
+        t = str(t)
+        if "include" in t.lower():
+            continue            # would touch the real file system
+        n = len(t)
+        for at in ([n // 2] if q else [n // 5, n // 2, (4 * n) // 5, n - 1]):
+            k += 1
+            us.append(dict(h="text_mut", text=t, at=at, std="f2008" if k % 2 else "f2003", ic=bool(k % 3), cost=2))
     return us
 
 
@@ -176,6 +187,16 @@ def tokmut(ctx):
     src = "\n".join(lines[:p["line"]] + [new] + lines[p["line"] + 1:]) + "\n"
     ctx.observe("src", src)
     run_parse(ctx, src, p["std"], True)
+
+
+def text_mut(ctx):
+    p = ctx.p
+    C.reset()
+    t = p["text"]
+    at = p["at"]
+    src = t[:at] + ctx.chars("c", 1, "text") + t[at + 1:]
+    ctx.observe("len", len(src))
+    run_parse(ctx, src, p["std"], p["ic"])
 
 
 def big(ctx):
